@@ -20,8 +20,18 @@ import (
 	"verifharness/hx"
 )
 
-// Timeout is how long the harness waits for a predicted observable.
+// Timeout is how long the harness waits for a predicted observable. After two expired waits in one
+// run (the tree under test is then very likely broken) later waits are cut to 3 s so that a
+// failing run still ends in reasonable time.
 var Timeout = 20 * time.Second
+
+var expired int32
+
+func noteExpired() {
+	if atomic.AddInt32(&expired, 1) >= 2 {
+		Timeout = 3 * time.Second
+	}
+}
 
 type chunk struct {
 	data []byte
@@ -169,6 +179,7 @@ func (p *Pipe) WaitWrites(pred func([][]byte) bool) bool {
 			return true
 		}
 		if time.Now().After(deadline) {
+			noteExpired()
 			return false
 		}
 		select {
@@ -290,6 +301,7 @@ func (c *Collector) Wait(pred func() bool) bool {
 	deadline := time.Now().Add(Timeout)
 	for !pred() {
 		if time.Now().After(deadline) {
+			noteExpired()
 			return false
 		}
 		time.Sleep(2 * time.Millisecond)
